@@ -393,14 +393,14 @@ func (e *Executor) executeTarget(
 	}
 
 	if isTainted {
-		go func() {
-			verifhook.Gate("taint.clear", "t", target.Label.String())
-			err = e.taintCache.Clear(ctx, target.Label)
-			verifhook.Emit("t.taint.clear", "t", target.Label.String(), "ok", err == nil)
-			if err != nil {
-				logger.Errorf("Failed to remove taint from target %s: %v", target.Label, err)
-			}
-		}()
+		// Clear the taint before reporting the target as done: a detached goroutine may lose the race against
+		// process exit, leaving the marker behind so that the next build executes the target again.
+		verifhook.Gate("taint.clear", "t", target.Label.String())
+		clearErr := e.taintCache.Clear(ctx, target.Label)
+		verifhook.Emit("t.taint.clear", "t", target.Label.String(), "ok", clearErr == nil)
+		if clearErr != nil {
+			logger.Errorf("Failed to remove taint from target %s: %v", target.Label, clearErr)
+		}
 	}
 
 	return dag.CacheMiss, nil
